@@ -125,9 +125,9 @@ def coq_build(targets, log):
         log.append(f'[coq] {cmd} rc={rc} {dt:.1f}s')
         res = {}
         for t in targets:
-            vo = os.path.join(COQ, t)
-            src = vo[:-1]
-            res[t] = os.path.exists(vo) and os.path.getmtime(vo) >= os.path.getmtime(src)
+            # up to date w.r.t. ALL its dependencies (a stale .vo left by an earlier build does not count)
+            rq, _, _ = sh(f'make -f Makefile.coq -q {t}', cwd=COQ, timeout=120)
+            res[t] = (rq == 0) and os.path.exists(os.path.join(COQ, t))
         return res, out, cmd
 
 
